@@ -791,7 +791,7 @@ def check_C01(tier: str, seed: int) -> int:
     # theorems of Properties/C01Sites are re-checked against it
     from . import sites as _sites
     site_counts = _sites.regenerate(fw.LEAN_DIR)
-    ps = fw.ProofStatus("C01", ["Properties.C01", "Properties.C01Sites", "Properties.C01Prims", "Properties.C01Walk", "Properties.C01Cycle"])
+    ps = fw.ProofStatus("C01", ["Properties.C01", "Properties.C01Sites", "Properties.C01Prims", "Properties.C01Walk", "Properties.C01Cycle", "Properties.C01Dispatch"])
     if tier == "thorough" and ps.build_ok:
         # the shared leanchecker pass leaves the regenerated table to this check
         rs = fw.leanchecker_mods(["Hive.Gen.Sites", "Properties.C01Sites"])
